@@ -226,6 +226,10 @@ def leaf(x):
     return {'VARARGS': 1}
   if isinstance(x, enum.Enum):
     return {'enum': f'{type(x).__qualname__}.{x.name}'}
+  if isinstance(x, types.MethodType):
+    recv = x.__self__
+    return {'fn': fn_name(x),
+            'self': fn_name(recv) if isinstance(recv, type) else 'instance of ' + type(recv).__qualname__}
   return {'fn': fn_name(x)}
 
 
